@@ -366,15 +366,25 @@ func clip(s string, n int) string {
 // oneConfig runs one policy through all forms.
 func (r *runner) oneConfig(id string, p *vd.Policy, styleSeed int64) bool {
 	req := p.Request()
-	cfgReq := fmt.Sprintf("CFG %d %s", styleSeed, req)
+	cfgReq := fmt.Sprintf("CFG %d %s", styleSeed, p.WireRequest())
 	memReply, _ := p.Compile()
 	modelReply, err := r.model.Ask(req)
 	if err != nil {
 		r.sum.Error = err.Error()
 		return true
 	}
-	if !vd.ComparePolicy(memReply, modelReply, p.Arch) {
+	memDiffers := !vd.ComparePolicy(memReply, modelReply, p.Arch)
+	if memDiffers && !p.Shared {
 		return r.mismatch(Mismatch{Case: id, Request: req, Go: memReply, Model: modelReply, Note: "in-memory compile differs from the model"})
+	}
+	if memDiffers {
+		// (a value whose slices share storage: go on, the forms read back never share any — if they compile
+		// differently from the in-memory value the two forms do not denote the same policy)
+		defer func() {
+			if len(r.sum.Mismatches) == 0 {
+				r.mismatch(Mismatch{Case: id, Request: cfgReq, Go: memReply, Model: modelReply, Note: "in-memory compile differs from the model"})
+			}
+		}()
 	}
 	orig := p.ToGo()
 	named := func(a uint32) bool {
@@ -622,6 +632,7 @@ func configStream(r *runner, rng *rand.Rand) error {
 	profiles := []string{"conds", "conds", "mix", "names", "single"}
 	for i := 0; i < *n; i++ {
 		p := vd.GenValid(rng, profiles[rng.Intn(len(profiles))])
+		p.Shared = rng.Intn(4) == 0 // the in-memory value of a caller who slices shared arrays
 		unnamed := rng.Intn(25) == 0
 		fix := func(a uint32) uint32 {
 			for _, x := range vd.NamedActions {
